@@ -377,7 +377,7 @@ func guarded(f func() error) (string, bool) {
 	select {
 	case r := <-done:
 		return r.out, true
-	case <-time.After(10 * time.Second):
+	case <-time.After(20 * time.Second):
 		return "timeout", false
 	}
 }
@@ -530,7 +530,7 @@ func callChild(kind string, ref *core.N, boots []*core.N) result {
 			r.after = f[1]
 		}
 		return r
-	case <-time.After(15 * time.Second):
+	case <-time.After(30 * time.Second):
 		stopChild()
 		timeouts++
 		return result{out: "timeout"}
@@ -866,12 +866,12 @@ func Run(c *core.Ctx) {
 		Replay(c, core.ReadRequests(c.Arg))
 		return
 	}
-	n := c.Scale(400, 7000)
+	n := c.Scale(400, 6000)
 	for i := 0; i < n && timeouts < maxTimeouts; i++ {
 		genCase(c, "lib")
 	}
 	if c.Gotree != "" {
-		m := c.Scale(25, 400)
+		m := c.Scale(25, 300)
 		for i := 0; i < m && timeouts < maxTimeouts; i++ {
 			genCase(c, "cli")
 		}
